@@ -30,6 +30,7 @@ func checkC08(r *Report, p *Program) {
 	r09_recordSet(r, p, "R08.7")
 	conditionTables(r, p, "R08.8")
 	claimsTables(r, p, "R08.9")
+	hookAnswerFrozenAfterGate(r, p, "R08.10")
 }
 
 // ---- key domains ----
